@@ -266,8 +266,30 @@ LINE_TARGETS = {
 }
 
 
+def nested_target(kind, depth):
+    """A short file (2 lines per level) in which blocks are nested `depth` deep with an instance on every level."""
+    open_, close = {"if": ("if c%d {", "}"), "for": ("for i%d := range xs {", "}"), "block": ("{", "}"),
+                    "func": ("run(func() {", "})"), "switch": ("switch {\ncase c%d:", "}"), "else": ("if c%d {\nfoo()\n} else {", "}")}[kind]
+    out = ["package a", "", "func f() {"]
+    for i in range(depth):
+        out.append(open_ % i if "%d" in open_ else open_)
+        out.append("foo()")
+    out += [close] * depth + ["}", ""]
+    return "\n".join(out)
+
+
+NEST_PATCHES = {"expr": "@@\n@@\n-foo()\n+bar()\n", "stmt": "@@\n@@\n-foo()\n+bar()\n+baz()\n"}
+
+
 def part_targets(ctx, quick, recs, st):
     scs = []
+    # nesting depth: the time taken may grow with the size of the file, not double with every level
+    for kind in ("if", "for", "block", "func", "switch", "else"):
+        for depth in (6, 14, 26):
+            for pn, ptxt in sorted(NEST_PATCHES.items()):
+                scs.append(dict(id="cli-nest-%s-%d-%s" % (kind, depth, pn), files=[dict(path="s.go", content=nested_target(kind, depth)), dict(path="p.patch", content=ptxt)],
+                                dirs=[], symlinks=[], args=["--print-only", "-p", "p.patch", "s.go"], stdin="", cwd="", strace=False, timeout_ms=30000,
+                                as_limit=3 << 30))
     for name, src in sorted(LINE_TARGETS.items()):
         for mode in ([], ["--print-only"], ["--diff"]):
             scs.append(dict(id="cli-line-%s%s" % (name, "".join(mode)), files=[dict(path="s.go", content=src), dict(path="p.patch", content=LINE_PATCH)],
@@ -285,7 +307,7 @@ def part_targets(ctx, quick, recs, st):
         else:
             o, d, s_ = "killed", "0", "x"
         recs.append(dict(id=sc["id"], outcome=o, diag=d, status=s_, augs=[], pred=[],
-                         what=dict(patch=LINE_PATCH, src=sc["files"][0]["content"], args=sc["args"], exit=r["exit"], stderr=r["stderr"][:500])))
+                         what=dict(patch=sc["files"][1]["content"], src=sc["files"][0]["content"], args=sc["args"], exit=r["exit"], stderr=r["stderr"][:500])))
     st["line_directive_cases"] = len(scs)
 
 
